@@ -376,6 +376,49 @@ func (fa *FA) entailsPhiSplit(at ssa.Instruction, facts []Fact, a, b *Lin, depth
 	return false
 }
 
+// EqualJointPhi: a == b, if need be by joint case analysis over the incoming edges of a block whose phis occur in
+// the difference: values assigned together on each branch (`end = size; count = size - offset`) are related on
+// every edge although the phis taken one by one are not.
+func (fa *FA) EqualJointPhi(a, b *Lin, depth int) bool {
+	d := a.Sub(b)
+	if d.C == 0 && len(d.T) == 0 {
+		return true
+	}
+	if depth == 0 {
+		return false
+	}
+	blocks := map[*ssa.BasicBlock]bool{}
+	for _, s := range d.Atoms {
+		if s.Op == "phi" {
+			if phi, ok := s.V.(*ssa.Phi); ok {
+				blocks[phi.Block()] = true
+			}
+		}
+	}
+	for blk := range blocks {
+		ok := len(blk.Preds) > 0
+		for i := range blk.Preds {
+			di := linConst(d.C)
+			for k, c := range d.T {
+				s := d.Atoms[k]
+				if phi, isPhi := s.V.(*ssa.Phi); isPhi && s.Op == "phi" && phi.Block() == blk {
+					di = di.Add(fa.Lin(phi.Edges[i]).Scale(c))
+				} else {
+					di = di.Add(linAtom(s).Scale(c))
+				}
+			}
+			if !fa.EqualJointPhi(di, linConst(0), depth-1) {
+				ok = false
+				break
+			}
+		}
+		if ok {
+			return true
+		}
+	}
+	return false
+}
+
 // bceCrossCheck (thorough tier): the Go compiler's own list of bounds checks it could not
 // prove away (-d=ssa/check_bce) must be covered by the obligations the enumerator produced for
 // the functions it analysed — so no bounds check (e.g. one inlined from the standard library)
